@@ -32,15 +32,16 @@ FINDER_BOUNDS = {
     'find_limit_slice': 'n <= 6 items, begin/end in -8..8',
     'find_related_text': 'every operator over about 40 known selections of a 9-character text',
     'find_handles_setops': 'every pair of duplicate-free sequences of length <= 4 over 5 handles',
+    'find_strip_ids': '0-4 annotations with data, one of them removed or none, strip annotation ids / data ids / both; every id, handle and temporary id looked up',
     'find_reindex_ids': 'every subset of 6 annotations removed, then reindex()',
-    'find_store_consistency': '12 annotations over all nine selector kinds, 3 index configurations, every single and double annotation removal, 7 other removals, 3 protect_text histories',
+    'find_store_consistency': '12 annotations over all nine selector kinds, 3 index configurations, every single and double annotation removal, 10 other removals, 6 protect_text histories',
     'find_segmentation': 'every set of <= 3 of 8 selections over a 10-character text, milestone intervals 0/2/3',
     'find_utf8': '8 texts of 1-4 byte codepoints, 5 milestone intervals, every position and every sub-selection',
     'find_relative_offsets': 'every selection x every container over 9 positions x 4 offset modes; every cursor pair against every container',
-    'find_subselectors': 'every sequence of 2-3 of 16 simple targets (7 text selections of two resources, annotations with and without text, resources, dataset, key, data) x Multi/Composite/Directional',
+    'find_subselectors': 'every sequence of 2-3 of 20 simple targets (7 text selections of two resources, annotations without text, with their whole text and with a sub-part of it, resources, dataset, key, data) x Multi/Composite/Directional',
     'find_text_ops': 'every sub-range of 6 texts (<= 8 codepoints of 1-4 bytes), 7 needles/delimiters, 3 trim sets; find_text, find_text_nocase, split_text, trim_text vs plain string operations',
     'find_query_semantics': '9 constraints over a 12-annotation store: every ordered pair as a conjunction, every pair as a disjunction, LIMIT 1-3; oracle: the single-constraint results',
-    'find_data_search': '13 values of five types under two keys x 19 operators: DataValue::test vs the documented semantics; find_data by key / value / both vs a full scan',
+    'find_data_search': '13 values of five types under two keys x 19 operators: DataValue::test vs the documented semantics; find_data by key (also one that does not exist) / value / both vs a full scan',
     'find_annotate_failures': '13 failing annotate() calls (missing / unresolvable / out-of-range / nested targets, bad data references, duplicate ids) on a small store; observable state compared before and after',
     'find_load_untrusted': '43 malformed or hostile STAM JSON documents through AnnotationStore::from_json_str (no document sized to exhaust memory)',
     'find_index_walk': 'every range over a 9-character text, forward and backward, 11 known selections',
